@@ -1076,6 +1076,93 @@ def _ebadf_mir(F, d, idx):
     return None
 
 
+_TRY_BRANCH = [re.compile(r'^<core::(result::Result|option::Option)<.*> as core::ops::try_trait::Try>::branch$')]
+_STD_SUMS = ('core::result::Result', 'core::option::Option', 'core::ops::control_flow::ControlFlow')
+
+
+def _variant_reach(F, body, du, start, removed=()):
+    """Blocks reachable from `start` (never entering `removed`) on paths that are feasible for the std sum values built on the way:
+    a local assigned `Err(..)` / `Ok(..)` / `None` / `Some(..)` (also through plain moves, the return place of an inlined helper, and
+    `?`: Try::branch of an Err is a Break) leaves a later switch on its discriminant by the matching edge only."""
+    removed = set(removed)
+    seen, out = set(), set()
+    stack = [(start, ())]
+    while stack:
+        node = stack.pop()
+        if node in seen:
+            continue
+        seen.add(node)
+        b, kn = node
+        out.add(b)
+        known = dict(kn)
+        for s in body.blocks[b]['s']:
+            if s['k'] != 'assign':
+                continue
+            l = s['lhs']['l']
+            if s['lhs'].get('p'):
+                known.pop(l, None)
+                continue
+            rv, v = s['rv'], None
+            if rv['k'] == 'agg' and rv.get('variant') and rv.get('adt') in _STD_SUMS:
+                v = rv['variant']
+            elif rv['k'] == 'use':
+                src = Q.operand_place(rv['o'])
+                if src is not None and not src.get('p'):
+                    v = known.get(src['l'])
+            if v is None:
+                known.pop(l, None)
+            else:
+                known[l] = v
+        t = body.term(b)
+        if t['k'] == 'call':
+            known.pop(t['dest']['l'], None)
+            if not t['dest'].get('p') and Q.callee_is(t, _TRY_BRANCH) and t['a']:
+                src = Q.operand_place(t['a'][0])
+                if src is not None and not src.get('p') and src['l'] in known:
+                    known[t['dest']['l']] = 'Continue' if known[src['l']] in ('Ok', 'Some') else 'Break'
+        succs = body.succ(b)
+        ec = Q.edge_condition(F, body, du, b)
+        if ec and ec[0]['k'] == 'discr' and not ec[0]['pl'].get('p') and ec[0]['pl']['l'] in known:
+            only = {tgt for tgt, labs in ec[1].items() if ('variant', known[ec[0]['pl']['l']]) in labs}
+            if only:
+                succs = [x for x in succs if x in only]
+        kn2 = tuple(sorted(known.items()))
+        for x in succs:
+            if x not in removed:
+                stack.append((x, kn2))
+    return out
+
+
+_ERRNO_EQ = re.compile(r'^<' + re.escape(ERRNO) + r' as core::cmp::PartialEq>::(eq|ne)$')
+
+
+def _real_close_ebadf_mir(F, d):
+    """MIR alternative to the arm `Err(Errno::EBADF) => return Ok(())`: an `Ok(..)` result of the function behind the test that the
+    error payload of a Result EQUALS Errno::EBADF (`let Err(errno) = .. else {..}; if errno == Errno::EBADF { Ok(()) }`, also through
+    `!`, `!=`, a materialised flag or a private helper)."""
+    body = F.bodies.get(d)
+    if body is None:
+        return False
+    body = F.inlined(body)
+    du = Q.DefUse(body)
+    for blk, j, st in Q.find_aggregates(body, 'core::result::Result', 'Ok'):
+        if st['lhs'] != {'l': 0}:
+            continue
+        for org, lab, e in Q.implied_conditions(F, body, du, blk):
+            org, lab = Q.peel_not(du, org, lab)
+            if org['k'] != 'call' or not lab or lab[0] != 'bool':
+                continue
+            mm = _ERRNO_EQ.match(pp.callee(org['t']))
+            if not mm or lab[1] != (mm.group(1) == 'eq') or len(org['t']['a']) != 2:
+                continue
+            sides = [_ref_origin(du, a) for a in org['t']['a']]
+            const = [x for x in sides if x['k'] == 'const' and str(x['o'].get('cdef') or '') == ERRNO + '::EBADF']
+            payload = [x for x in sides if x['k'] == 'place' and any(isinstance(pe, dict) and pe.get('v') == 'Err' for pe in (x['pl'].get('p') or []))]
+            if const and payload:
+                return True
+    return False
+
+
 def _impl_fn(F, adt, key):
     tn, mn = key.split('::')
     d = [it['def'] for i in F.impls if i.get('self_adt') == adt and last(i.get('trait_def') or '') == tn
@@ -1157,8 +1244,12 @@ def r6(cx):
             and unwrap(c['recv']).get('name') == 'get' and 'HashMap' in callee(unwrap(c['recv'])) and _propagated(c, gpar, gh)]
     if not miss:
         # `let Some(child) = children.get(name) else { return Err(ENOENT) }` / `match .. { None => return Err(ENOENT) }`: decided on the MIR
+        # (the per-component lookup may live in a private helper `fn lookup(dir, name) -> Result<..>` called under `?`: it is
+        # analysed in place, and the region after the None edge is the set of blocks FEASIBLE for the Result built there - an
+        # `Err(..)` handed to `?` leaves by the Break edge only)
         gb = [b for k, b in F.bodies.items() if k.startswith(get_fn) and 'main' in k]
         for mb in gb:
+            mb = F.inlined(mb)
             mdu = Q.DefUse(mb)
             gets = {t['dest']['l'] for _, t in mb.calls() if re.search(r'HashMap::<.*>::get$', pp.callee(t))}
             nexts = {blk for blk, t in mb.calls() if re.search(r'Iterator>::next$', pp.callee(t))}
@@ -1172,7 +1263,7 @@ def r6(cx):
                 for tgt, labs in ec[1].items():
                     if ('variant', 'None') not in labs:
                         continue
-                    region = mb.reachable(tgt, removed=nexts)
+                    region = _variant_reach(F, mb, mdu, tgt, removed=nexts)
                     enoent = any(st['k'] == 'assign' and any(isinstance(o, dict) and str(o.get('cdef') or '').endswith('::ENOENT')
                                                               for o in ([st['rv'].get('o')] if st['rv'].get('o') else []) + (st['rv'].get('ops') or []))
                                  for b_ in region for st in mb.blocks[b_]['s'])
@@ -1242,6 +1333,8 @@ def r6(cx):
         if n.get('k') == 'ret' and n.get('e') and value_key(n['e']) == ('Ok', ()):
             if any('Err' in keys and sub == {'EBADF'} for sc, keys, sub in g.arms):
                 ok = True
+    if not ok:
+        ok = _real_close_ebadf_mir(F, d)
     cx.site('real close: Err(EBADF) => Ok(()): %s' % ok)
     cx.cellcount(1)
     if not ok:
@@ -1566,6 +1659,40 @@ def r14(cx):
                     return True
         return False
 
+    ITER = r'^core::iter::traits::iterator::Iterator::'
+    consumers = re.compile(ITER + r'(map|for_each|filter_map|inspect|map_while|try_for_each|flat_map|fold|try_fold|any|all|find_map)$')
+    keeps_elements = re.compile(ITER + r'(filter|inspect|rev|fuse|by_ref|peekable|take|skip|take_while|skip_while|step_by)$')
+
+    def closure_tests_reaped(operand, pdu):
+        ao = pdu.origin(operand)
+        cb = F.bodies.get(ao['rv'].get('def')) if ao.get('k') == 'agg' and ao['rv'].get('ak') == 'closure' else None
+        return cb is not None and any(pp.callee(ct).startswith(P) and reads_reaped_state(pp.callee(ct)) for _, ct in cb.calls())
+
+    def filtered_upstream(cb):
+        """cb is a closure handed to an iterator adapter in its parent body, and the iterator it is applied to is (an element-preserving
+        adaptation of) `.filter(<closure that looks at the reaped state>)`."""
+        for pb in F.logical(cb.root):
+            if pb.fn == cb.fn:
+                continue
+            pdu = Q.DefUse(pb)
+            for blk, t in pb.calls():
+                if not consumers.match(pp.callee(t)) or len(t['a']) < 2:
+                    continue
+                if not any((pdu.origin(a).get('rv') or {}).get('def') == cb.fn for a in t['a'][1:] if pdu.origin(a).get('k') == 'agg'):
+                    continue
+                recv = t['a'][0]
+                for _ in range(8):
+                    src = Q.value_source(pb, pdu, recv)
+                    if src is None or not src.get('a'):
+                        break
+                    c = pp.callee(src)
+                    if re.match(ITER + r'filter$', c) and len(src['a']) == 2 and closure_tests_reaped(src['a'][1], pdu):
+                        return True
+                    if not keeps_elements.match(c):
+                        break
+                    recv = src['a'][0]
+        return False
+
     senders = [b for b in F.bodies.values() if '::r#virtual::' in b.fn and '::tests::' not in b.fn
                and not b.fn.startswith(P) and Q.find_calls(b, [P + 'raise_signal'])]
     # raise_signal on the CURRENT process (raise(), abort paths) is not addressed to a pid: only the kill paths count
@@ -1590,6 +1717,10 @@ def r14(cx):
                             cb = F.bodies.get(ao['rv'].get('def')) if ao.get('k') == 'agg' else None
                             if cb is not None and any(pp.callee(ct).startswith(P) and reads_reaped_state(pp.callee(ct)) for _, ct in cb.calls()):
                                 ok = True
+            if not ok and b.fn != b.root:
+                # the signal is raised in the closure of an iterator adapter (`.filter(|p| !p.has_been_reaped()).map(|p| p.raise_signal(..))`,
+                # `.for_each(..)`): the test sits in a `filter` closure earlier in the same chain
+                ok = filtered_upstream(b)
             cx.site('%s: raise_signal at %s behind a has-it-been-awaited test: %s' % (b.fn, b.loc(t), ok))
             if not ok:
                 cx.violation(b.root, 'signal-to-reaped-process', 'kill() delivers a signal to (and answers success for) a simulated process '
@@ -2087,6 +2218,11 @@ def r19(cx):
     cx.require(cands, 'the path walk FileSystem::get::main was not found')
     body = max(cands, key=lambda b: len(b.blocks))
     cx.fn(body.fn)
+    # a private helper that looks a name up in the current file (`fn lookup(dir, name) -> Result<..>`) is analysed in place: its
+    # kind test is a test on the way to the step
+    body = F.inlined(body)
+    for f in getattr(body, 'inlined_from', None) or []:
+        cx.fn(f)
     du = Q.DefUse(body)
     # the dispatch on the path component
     disp = None
@@ -2174,7 +2310,10 @@ def r20(cx):
     GETP = re.compile(r'file_system::FileSystem::get$')
     allowed = {VIRT + '::resolve_existing_file', VIRT + '::resolve_file'}
     users = [(b, blk, t) for b, blk, t in F.callers_of(lambda names, t: any(GETP.search(n) for n in names))
-             if '::tests' not in b.fn and not b.root.startswith('yash_env::system::r#virtual::file_system::')]
+             # test support code (yash_env::test_helper, built only with the `test-helper` feature: assert_stdout / assert_stderr read
+             # files of the simulated file system directly) is not a system call of the simulated kernel
+             if '::tests' not in b.fn and '::test_helper::' not in b.fn
+             and not b.root.startswith('yash_env::system::r#virtual::file_system::')]
     cx.floor(len(users), 2, 'callers of FileSystem::get in the simulated kernel')
     for b, blk, t in users:
         cx.fn(b.root)
@@ -2934,11 +3073,13 @@ def _literal_text(du, operand, depth=6):
     return None
 
 
-def _feasible_path(body, du, goals, force=None, avoid=(), ending=None):
+def _feasible_path(body, du, goals, force=None, avoid=(), ending=None, F=None):
     """A path entry -> goal block that is feasible for a pathname with the given ending: bool locals assigned constants (the
     materialised `matches!`, `&&`, `||`, `!`) are tracked along the path and a later switch on them follows the matching edge only;
     `x.ends_with(<literal>)` answers what the ending says. With force=(u, v) the path leaves block u by the edge to v only and must
-    take it at least once. Blocks in `avoid` are not entered. Returns the block list or None."""
+    take it at least once. Blocks in `avoid` are not entered. Returns the block list or None. With F given, std sum values built
+    on the way (`Err(..)` / `Ok(..)` / `None` / `Some(..)`, also as the result of an inlined helper handed to `?`) are tracked as well:
+    a switch on the discriminant of such a local follows the matching edge only."""
     from collections import deque
     goals, avoid = set(goals), set(avoid)
 
@@ -2975,6 +3116,14 @@ def _feasible_path(body, du, goals, force=None, avoid=(), ending=None):
                 elif rv['k'] == 'unop' and rv.get('op') == 'Not':
                     v = value(rv['o'], known)
                     v = None if v is None else not v
+            elif F is not None and not s['lhs'].get('p'):
+                rv = s['rv']
+                if rv['k'] == 'agg' and rv.get('variant') and rv.get('adt') in _STD_SUMS:
+                    v = 'variant:' + rv['variant']
+                elif rv['k'] == 'use':
+                    src = Q.operand_place(rv['o'])
+                    if src is not None and not src.get('p') and isinstance(known.get(src['l']), str):
+                        v = known[src['l']]
             if v is None:
                 known.pop(l, None)
             else:
@@ -2982,6 +3131,10 @@ def _feasible_path(body, du, goals, force=None, avoid=(), ending=None):
         t = body.term(b)
         if t['k'] == 'call' and not t['dest'].get('p'):
             known.pop(t['dest']['l'], None)
+            if F is not None and Q.callee_is(t, _TRY_BRANCH) and t['a']:
+                src = Q.operand_place(t['a'][0])
+                if src is not None and not src.get('p') and isinstance(known.get(src['l']), str):
+                    known[t['dest']['l']] = 'variant:Continue' if known[src['l']] in ('variant:Ok', 'variant:Some') else 'variant:Break'
             if ending is not None and Q.callee_is(t, _ENDS_WITH) and len(t['a']) == 2:
                 lit = _literal_text(du, t['a'][1])
                 if lit in _ENDINGS:
@@ -3008,6 +3161,12 @@ def _feasible_path(body, du, goals, force=None, avoid=(), ending=None):
             if v is not None:
                 hit = [tgt for val, tgt in t['ts'] if bool(val) == v]
                 succs = hit[:1] if hit else [t['else']]
+        elif t['k'] == 'switch' and F is not None:
+            ec = Q.edge_condition(F, body, du, b)
+            if ec and ec[0]['k'] == 'discr' and not ec[0]['pl'].get('p') and isinstance(known.get(ec[0]['pl']['l']), str):
+                only = {tgt for tgt, labs in ec[1].items() if ('variant', known[ec[0]['pl']['l']][8:]) in labs}
+                if only:
+                    succs = [x for x in succs if x in only]
         for s in succs:
             p2 = passed
             if force is not None and b == force[0]:
@@ -3052,6 +3211,40 @@ def r19b(cx):
         return errno is None or any(str(o.get('cdef', '')).endswith('::Errno::' + errno) for o in rv['ops'] if isinstance(o, dict))
     ok_blocks = {b for b, j, s in body.stmts() if is_result(s, 'Ok')}
     enotdir_blocks = {b for b, j, s in body.stmts() if is_result(s, 'Err', 'ENOTDIR')}
+    # ... or `Err(ENOTDIR)` as the result of an inlined helper that goes to `?`, whose residual becomes the result of the walk
+    propagated = set()
+    for blk, t in body.calls():
+        if t['dest'].get('p') or t['dest']['l'] != 0 or not re.search(r'FromResidual<.*>>::from_residual$', pp.callee(t)) or not t['a']:
+            continue
+        o = t['a'][0]
+        for _ in range(4):
+            pl = Q.operand_place(o)
+            if pl is None or pl.get('p'):
+                break
+            d = du.single_def(pl['l'])
+            if d is None or d[1] == 't' or d[2]['k'] != 'assign' or d[2]['rv']['k'] != 'use':
+                pl = None
+                break
+            o = d[2]['rv']['o']
+        if pl is None or not pl.get('p'):
+            continue
+        src = du.origin({'cp': {'l': pl['l']}})
+        if src.get('k') == 'call' and Q.callee_is(src['t'], _TRY_BRANCH) and src['t']['a']:
+            a = Q.operand_place(src['t']['a'][0])
+            if a is not None and not a.get('p'):
+                propagated.add(a['l'])
+    grown = True
+    while grown:
+        grown = False
+        for b, j, s in body.stmts():
+            if s['k'] == 'assign' and not s['lhs'].get('p') and s['lhs']['l'] in propagated and s['rv']['k'] == 'use':
+                src = Q.operand_place(s['rv']['o'])
+                if src is not None and not src.get('p') and src['l'] not in propagated and src['l'] != 0:
+                    propagated.add(src['l'])
+                    grown = True
+    for b, j, s in body.stmts():
+        if s['k'] == 'assign' and not s['lhs'].get('p') and s['lhs']['l'] in propagated and is_result(dict(s, lhs={'l': 0}), 'Err', 'ENOTDIR'):
+            enotdir_blocks.add(b)
     rets = set(body.return_blocks())
     cx.require(ok_blocks, 'FileSystem::get::main has no `Ok(node)` result (shape changed: review C19.R19b)')
     tests = []
@@ -3075,8 +3268,8 @@ def r19b(cx):
                     target[lab[1]] = tgt
         cx.require(set(target) == set(variants), 'kind test at %s does not cover the variants of FileBody' % body.loc(body.term(u)))
         for e in _ENDINGS:
-            live = {v: _feasible_path(body, du, rets, force=(u, target[v]), ending=e) is not None for v in variants}
-            acc = {v: _feasible_path(body, du, ok_blocks, force=(u, target[v]), ending=e) for v in variants}
+            live = {v: _feasible_path(body, du, rets, force=(u, target[v]), ending=e, F=F) is not None for v in variants}
+            acc = {v: _feasible_path(body, du, ok_blocks, force=(u, target[v]), ending=e, F=F) for v in variants}
             if not any(live.values()):
                 continue                    # the test is not evaluated for a pathname with this ending
             rejected = [v for v in variants if live[v] and acc[v] is None]
@@ -3108,12 +3301,12 @@ def r19b(cx):
                                          'a real kernel says ENOTDIR'}[where] % v
                     cx.violation(raw.root, '%s:non-directory-accepted:%s' % (where, v), what, loc=body.loc(body.term(u)),
                                  path=Q.render_path(body, acc[v]))
-                elif _feasible_path(body, du, enotdir_blocks, force=(u, target[v]), ending=e) is None:
+                elif _feasible_path(body, du, enotdir_blocks, force=(u, target[v]), ending=e, F=F) is None:
                     cx.violation(raw.root, '%s:not-enotdir:%s' % (where, v), 'a %s in place of a directory is refused, but not with ENOTDIR '
                                  '(the errno a real kernel gives)' % v, loc=body.loc(body.term(u)))
     # the final test cannot be walked around: with a trailing `/` (or `/.`) no Ok without it
     for e in _ENDINGS:
-        p = _feasible_path(body, du, ok_blocks, avoid=finals[e], ending=e)
+        p = _feasible_path(body, du, ok_blocks, avoid=finals[e], ending=e, F=F)
         cx.site('FileSystem::get: a pathname ending %r reaches Ok only through a directory requirement on the last file (%d test(s)): %s'
                 % (e, len(finals[e]), p is None))
         if p is not None:
